@@ -97,94 +97,62 @@ theorem exFS_mem (p : Path) (i : Ino) (h : exFS.lookup p = some i) : (p, i) ∈ 
 example : LW (pathComps (clean b!"/w/dest")) ({ fs := exFS } : World) := by
   have hdp : pathComps (clean b!"/w/dest") = [b!"w", b!"dest"] := by decide
   rw [hdp]
-  refine ⟨⟨rfl, ?_, ?_, by decide, ?_⟩, ?_⟩
-  rotate_left 2
-  · intro p i h
+  have hcases : ∀ p i, exFS.lookup p = some i →
+      (p = [] ∧ i = 0) ∨ (p = [b!"w"] ∧ i = 1) ∨ (p = [b!"w", b!"dest"] ∧ i = 2) ∨ (p = [b!"w", b!"secret"] ∧ i = 3) := by
+    intro p i h
     have hm := exFS_mem p i h
-    simp [exFS] at hm
-    rcases hm with ⟨rfl, _⟩ | ⟨rfl, _⟩ | ⟨rfl, _⟩ | ⟨rfl, _⟩ <;> intro c hc <;> simp at hc
-    · subst hc; simp [Norm, dot, dotdot]
-    · rcases hc with rfl | rfl <;> simp [Norm, dot, dotdot]
-    · rcases hc with rfl | rfl <;> simp [Norm, dot, dotdot]
-  rotate_left 1
-  · intro p n h
+    simpa [exFS] using hm
+  have hns : NoSym exFS := by
+    intro p n h
     rw [get_def] at h
     cases hl : exFS.lookup p with
     | none => rw [hl] at h; cases h
     | some i =>
       rw [hl] at h
-      have hm := exFS_mem p i hl
-      simp [exFS] at hm
-      rcases hm with ⟨_, rfl⟩ | ⟨_, rfl⟩ | ⟨_, rfl⟩ | ⟨_, rfl⟩ <;> simp [exFS, exDir] at h <;> rw [← h] <;> simp
-  · intro p i h
-    have hm := exFS_mem p i h
-    simp [exFS] at hm
-    rcases hm with ⟨_, rfl⟩ | ⟨_, rfl⟩ | ⟨_, rfl⟩ | ⟨_, rfl⟩ <;> decide
-  · intro pre hpre hne
-    have hcases : pre = [] ∨ pre = [b!"w"] := by
+      rcases hcases p i hl with ⟨_, rfl⟩ | ⟨_, rfl⟩ | ⟨_, rfl⟩ | ⟨_, rfl⟩ <;> simp [exFS, exDir] at h <;> rw [← h] <;> simp
+  have hfresh : NextFresh exFS := by
+    intro p i h
+    rcases hcases p i h with ⟨_, rfl⟩ | ⟨_, rfl⟩ | ⟨_, rfl⟩ | ⟨_, rfl⟩ <;> decide
+  have hnames : NameWF exFS := by
+    intro p i h c hc
+    rcases hcases p i h with ⟨rfl, _⟩ | ⟨rfl, _⟩ | ⟨rfl, _⟩ | ⟨rfl, _⟩ <;> simp at hc
+    · subst hc; simp [Norm, dot, dotdot]
+    · rcases hc with rfl | rfl <;> simp [Norm, dot, dotdot]
+    · rcases hc with rfl | rfl <;> simp [Norm, dot, dotdot]
+  have htree : TreeWF exFS := by
+    constructor
+    · intro p i h
+      rcases hcases p i h with ⟨_, rfl⟩ | ⟨_, rfl⟩ | ⟨_, rfl⟩ | ⟨_, rfl⟩ <;> simp [exFS]
+    · intro p i h hne
+      rcases hcases p i h with ⟨rfl, _⟩ | ⟨rfl, _⟩ | ⟨rfl, _⟩ | ⟨rfl, _⟩
+      · exact absurd rfl hne
+      · decide
+      · decide
+      · decide
+  have hchain : Chain [b!"w", b!"dest"] exFS := by
+    intro pre hpre hne
+    have hc2 : pre = [] ∨ pre = [b!"w"] := by
       rcases hpre with ⟨t, ht⟩
       match pre, ht with
       | [], _ => exact Or.inl rfl
       | [a], ht => simp at ht; exact Or.inr (by rw [ht.1])
       | [a, b], ht => simp at ht; exact absurd (by rw [ht.1, ht.2.1]) hne
       | a :: b :: c :: r, ht => simp at ht
-    rcases hcases with rfl | rfl
+    rcases hc2 with rfl | rfl
     · refine ⟨0, exDir, by decide, by simp [exFS], rfl, ⟨⟨[], by decide⟩, ?_⟩⟩
       intro p hp
-      have hm := exFS_mem p 0 hp
-      simp [exFS] at hm
-      subst hm; decide
+      rcases hcases p 0 hp with ⟨rfl, _⟩ | ⟨_, h⟩ | ⟨_, h⟩ | ⟨_, h⟩
+      · decide
+      · cases h
+      · cases h
+      · cases h
     · refine ⟨1, exDir, by decide, by simp [exFS], rfl, ⟨⟨[b!"w"], by decide⟩, ?_⟩⟩
       intro p hp
-      have hm := exFS_mem p 1 hp
-      simp [exFS] at hm
-      subst hm; decide
-
-/-- the hypotheses are satisfiable: the empty file system with destination "/" -/
-example : LW (pathComps (clean b!"/")) ({ fs := FS.empty } : World) := by
-  have hdp : pathComps (clean b!"/") = [] := by decide
-  rw [hdp]
-  refine ⟨⟨rfl, ?_, ?_, ?_, ?_⟩, ?_⟩
-  rotate_left 3
-  · intro p i h
-    simp only [FS.lookup, FS.empty] at h
-    cases hf : List.find? (fun e => e.1 == p) [(([] : Path), 0)] with
-    | none => rw [hf] at h; simp at h
-    | some x =>
-      have hp := List.find?_some hf
-      have hx := List.mem_of_find?_eq_some hf
-      simp at hx
-      subst hx
-      simp at hp
-      subst hp
-      intro c hc; cases hc
-  rotate_left 1
-  · intro p n h
-    simp only [FS.get, FS.lookup, FS.empty] at h
-    cases hf : List.find? (fun e => e.1 == p) [(([] : Path), 0)] with
-    | none => rw [hf] at h; simp at h
-    | some x =>
-      rw [hf] at h
-      have := List.find?_some hf
-      have hx := List.mem_of_find?_eq_some hf
-      simp at hx
-      subst hx
-      simp at h
-      rw [← h]; simp
-  · intro p i h
-    simp only [FS.lookup, FS.empty] at h
-    cases hf : List.find? (fun e => e.1 == p) [(([] : Path), 0)] with
-    | none => rw [hf] at h; simp at h
-    | some x =>
-      rw [hf] at h
-      have hx := List.mem_of_find?_eq_some hf
-      simp at hx
-      subst hx
-      simp at h
-      subst h
-      exact Nat.zero_lt_one
-  · decide
-  · intro pre hpre hne
-    exact absurd (List.prefix_nil.mp hpre) hne
+      rcases hcases p 1 hp with ⟨_, h⟩ | ⟨rfl, _⟩ | ⟨_, h⟩ | ⟨_, h⟩
+      · cases h
+      · decide
+      · cases h
+      · cases h
+  exact ⟨⟨rfl, hns, hfresh, by decide, hnames, htree⟩, hchain⟩
 
 end GA.C02
